@@ -121,7 +121,7 @@ class AccSim:
                 shape = [rng.choice([70000, 2**16 + 1, 50000]), rng.choice([70000, 2**16 + 3, 40000])]
             idx = [[d - 1 - rng.choice([0, 1, 5]) for d in shape], [d // 2 + 1 for d in shape], [0 for _ in shape]]
             big.append({"item": item, "shape": shape, "idx": idx})
-        spec["acc"] = {"decl_first": rng.random() < 0.3, "cpu_first": rng.random() < 0.4, "big": big, "profile": profile, "omp": rng.choice([2, "auto"]), "sanitize": True, "nset": rng.choice([2, 6, 12]), "set_seed": rng.getrandbits(30)}
+        spec["acc"] = {"decl_conf": rng.choice(["empty", "empty", "default"]), "decl_first": rng.random() < 0.3, "cpu_first": rng.random() < 0.4, "big": big, "profile": profile, "omp": rng.choice([2, "auto"]), "sanitize": True, "nset": rng.choice([2, 6, 12]), "set_seed": rng.getrandbits(30)}
         return spec
 
     def run(self, prop, profile, rng=None, replay=None, tier="quick"):
@@ -205,7 +205,12 @@ class AccSim:
             # as ContextCpu.build_kernels does) come into being before any source text or kernel list
             for t, cls in enumerate(w.classes):
                 if schema[t]["k"] in ("struct", "array", "uref"):
-                    cls._gen_c_decl({})
+                    # (or with the default configuration, which is what the public method uses when
+                    # it is called without an argument)
+                    if spec["acc"].get("decl_conf", "empty") == "default":
+                        cls._gen_c_decl()
+                    else:
+                        cls._gen_c_decl({})
             res.fault("declarations_generated_first")
         for t, cls in enumerate(w.classes):
             if schema[t]["k"] in ("struct", "array", "uref"):
